@@ -612,10 +612,15 @@ fn match_with_rule<'src>(
 
             asm::RulePatternPart::Whitespace =>
             {
-                if !walker.is_over() &&
-                    walker.next_token().kind != syntax::TokenKind::Whitespace
+                if !walker.is_over()
                 {
-                    return vec![];
+                    let kind = walker.next_token().kind;
+
+                    if kind != syntax::TokenKind::Whitespace &&
+                        kind != syntax::TokenKind::Comment
+                    {
+                        return vec![];
+                    }
                 }
             }
 
